@@ -505,7 +505,7 @@ theorem sim_beginQ {s : St} {a a' : ASt} {c pid : Nat} {r : Res}
                 simp only [if_true]
                 constructor
                 · intro x; exact absurd x (not_owner_of_nonquery hl hq pid')
-                · intro x; exact absurd x.2 e
+                · intro x; exact x.2.elim
               · simp [e2]
           · refine PInv_insert hi ⟨?_, ?_⟩
             · intro _
@@ -513,4 +513,772 @@ theorem sim_beginQ {s : St} {a a' : ASt} {c pid : Nat} {r : Res}
               intro c' hc'; exact absurd hc' (hno c')
             · intro x; exact absurd rfl x
 
+theorem sim_endQ {s : St} {a a' : ASt} {c pid : Nat} {r : Res}
+    (hs : Sim s a) (hi : PInv a.procs) (h : astep a (.endQ c pid) = some (a', r)) :
+    (step s (.endQ c pid)).2 = r ∧ Sim (step s (.endQ c pid)).1 a' ∧ PInv a'.procs := by
+  obtain ⟨hp, hc, hn, hcon, hrun, hby⟩ := hs
+  simp only [astep] at h
+  split at h
+  · cases h
+  · rename_i hpid
+    split at h
+    · rename_i c' ho
+      split at h
+      · cases h
+      · rename_i hcc
+        have hcc : c' = c := Classical.not_not.mp hcc
+        subst hcc
+        split at h
+        · cases h
+        · rename_i p hl
+          cases h
+          obtain ⟨p0, hl0, hq, hpp⟩ := pidOwner_some a.procs pid c' hi.nodup ho
+          rw [hl] at hl0; cases hl0
+          obtain ⟨_, hk⟩ := hi.wfq c' p hl hq
+          have hl' : lookup s.procs c' = some p := by rw [hp]; exact hl
+          cases hkk : p.kill with
+          | none => exact absurd hkk hk
+          | some t =>
+            simp only [step, hl', hpp, if_true, hkk]
+            refine ⟨trivial, ⟨?_, ?_, hn, ?_, ?_, ?_⟩, ?_⟩
+            · simp [hp, idleProc]
+            · simp [hc, cancelOpt]
+            · simp only [aConnected, hcon, len_insert_old _ c' _ p hl]
+            · have := run_insert_old a.procs c' (idleProc .sleep) p hl
+              have hp1 : isQuery p = 1 := by simp [isQuery, hq]
+              have hv0 : isQuery (idleProc .sleep) = 0 := by simp [isQuery, idleProc]
+              simp only [aRunning, hrun]
+              omega
+            · intro pid' c''
+              simp only []
+              rw [lookup_erase, owner_insert]
+              by_cases e : pid = pid'
+              · subst e
+                simp only [if_true]
+                constructor
+                · intro x; cases x
+                · intro x
+                  by_cases e2 : c' = c''
+                  · simp [e2, idleProc] at x
+                  · simp only [e2, if_false] at x
+                    exact absurd (hi.uniq pid c' c'' ⟨p, hl, hq, hpp⟩ x) e2
+              · simp only [e, if_false, hby]
+                by_cases e2 : c' = c''
+                · subst e2
+                  simp only [if_true, idleProc]
+                  constructor
+                  · rintro ⟨p1, hl1, _, hpp1⟩
+                    rw [hl] at hl1; cases hl1
+                    exact absurd (hpp.symm.trans hpp1) e
+                  · intro x; cases x.1
+                · simp [e2]
+            · exact PInv_insert hi (goodVal_nonquery _ _ _ (by simp [idleProc]) rfl rfl)
+    · rename_i ho
+      cases h
+      have hno := pidOwner_none a.procs pid ho
+      have hby' : ∀ pid' c'', lookup (erase s.byPid pid) pid' = some c'' ↔ Owner a.procs pid' c'' := by
+        intro pid' c''
+        rw [lookup_erase]
+        by_cases e : pid = pid'
+        · subst e
+          simp only [if_true]
+          constructor
+          · intro x; cases x
+          · intro x; exact absurd x (hno c'')
+        · simp only [e, if_false, hby]
+      cases hl : lookup a.procs c with
+      | none =>
+        have hl' : lookup s.procs c = none := by rw [hp]; exact hl
+        simp only [step, hl']
+        exact ⟨trivial, ⟨hp, hc, hn, hcon, hrun, hby'⟩, hi⟩
+      | some p =>
+        have hl' : lookup s.procs c = some p := by rw [hp]; exact hl
+        have hne : ¬ p.pid = pid := by
+          intro e
+          by_cases hq : p.cmd = .query
+          · exact hno c ⟨p, hl, hq, e⟩
+          · exact hpid ((hi.wfn c p hl hq).1.symm.trans e).symm
+        simp only [step, hl', hne, if_false]
+        exact ⟨trivial, ⟨hp, hc, hn, hcon, hrun, hby'⟩, hi⟩
+
+theorem insert_self {β : Type} (m : List (Nat × β)) (k : Nat) (v : β) (h : lookup m k = some v) :
+    insert m k v = m := by
+  induction m with
+  | nil => simp [lookup] at h
+  | cons x m ih =>
+    obtain ⟨a, b⟩ := x
+    by_cases e : a = k
+    · subst e; simp [lookup] at h; simp [insert, h]
+    · simp [lookup, e] at h; simp [insert, e, ih h]
+
+/-- Replacing a non-query entry by a non-query entry keeps counters and the pid index. -/
+theorem sim_replace_nonquery {s : St} {a : ASt} {c : Nat} {p v : Proc} {cs ca : List Nat} {ns na : Nat}
+    (hs : Sim s a) (hi : PInv a.procs) (hl : lookup a.procs c = some p) (hq : p.cmd ≠ .query)
+    (hv : v.cmd ≠ .query) (hv0 : v.pid = 0) (hvq : v.query = none) (hcs : cs = ca) (hns : ns = na) :
+    Sim { s with cancelled := cs, nextTok := ns, procs := insert s.procs c v }
+        { a with cancelled := ca, nextTok := na, procs := insert a.procs c v } ∧
+    PInv (insert a.procs c v) := by
+  obtain ⟨hp, hc, hn, hcon, hrun, hby⟩ := hs
+  refine ⟨⟨?_, hcs, hns, ?_, ?_, ?_⟩, PInv_insert hi (goodVal_nonquery _ _ _ hv hv0 hvq)⟩
+  · simp [hp]
+  · simp only [aConnected, hcon, len_insert_old _ c _ p hl]
+  · have := run_insert_old a.procs c v p hl
+    have hp0 : isQuery p = 0 := by simp [isQuery, hq]
+    have hv0 : isQuery v = 0 := by simp [isQuery, hv]
+    simp only [aRunning, hrun]
+    omega
+  · intro pid' c''
+    simp only []
+    rw [hby, owner_insert]
+    by_cases e2 : c = c''
+    · subst e2
+      simp only [if_true]
+      constructor
+      · intro x; exact absurd x (not_owner_of_nonquery hl hq pid')
+      · intro x; exact absurd x.1 hv
+    · simp [e2]
+
+theorem sim_beginOp {s : St} {a a' : ASt} {c : Nat} {r : Res}
+    (hs : Sim s a) (hi : PInv a.procs) (h : astep a (.beginOp c) = some (a', r)) :
+    (step s (.beginOp c)).2 = r ∧ Sim (step s (.beginOp c)).1 a' ∧ PInv a'.procs := by
+  have hp := hs.procs
+  have hn := hs.nextTok
+  simp only [astep] at h
+  split at h
+  · rename_i hl
+    cases h
+    have hl' : lookup s.procs c = none := by rw [hp]; exact hl
+    simp only [step, hl']
+    exact ⟨trivial, hs, hi⟩
+  · rename_i p hl
+    have hl' : lookup s.procs c = some p := by rw [hp]; exact hl
+    split at h
+    · rename_i hbusy
+      cases h
+      have hk : p.kill ≠ none := by
+        rcases hbusy with hq | hk
+        · exact (hi.wfq c p hl hq).2
+        · exact hk
+      cases hkk : p.kill with
+      | none => exact absurd hkk hk
+      | some t =>
+        simp only [step, hl', hkk]
+        exact ⟨trivial, hs, hi⟩
+    · rename_i hfree
+      cases h
+      have hq : p.cmd ≠ .query := fun e => hfree (Or.inl e)
+      have hk : p.kill = none := by
+        cases hkk : p.kill with
+        | none => rfl
+        | some t => exact absurd (Or.inr (by simp [hkk])) hfree
+      obtain ⟨h0, hqq⟩ := hi.wfn c p hl hq
+      simp only [step, hl', hk]
+      have := sim_replace_nonquery (cs := s.cancelled) (ca := a.cancelled) (ns := s.nextTok + 1)
+        (na := a.nextTok + 1) (v := { p with kill := some s.nextTok }) hs hi hl hq hq h0 hqq
+        hs.cancelled (by rw [hn])
+      rw [hn] at this ⊢
+      exact ⟨rfl, this.1, this.2⟩
+
+theorem sim_endOp {s : St} {a a' : ASt} {c : Nat} {r : Res}
+    (hs : Sim s a) (hi : PInv a.procs) (h : astep a (.endOp c) = some (a', r)) :
+    (step s (.endOp c)).2 = r ∧ Sim (step s (.endOp c)).1 a' ∧ PInv a'.procs := by
+  have hp := hs.procs
+  simp only [astep] at h
+  split at h
+  · rename_i hl
+    cases h
+    have hl' : lookup s.procs c = none := by rw [hp]; exact hl
+    simp only [step, hl']
+    exact ⟨trivial, hs, hi⟩
+  · rename_i p hl
+    have hl' : lookup s.procs c = some p := by rw [hp]; exact hl
+    split at h
+    · cases h
+    · rename_i hq
+      cases h
+      obtain ⟨h0, hqq⟩ := hi.wfn c p hl hq
+      cases hkk : p.kill with
+      | none =>
+        simp only [step, hl', hkk, cancelOpt]
+        have e : ({ p with kill := none } : Proc) = p := by cases p; simp_all
+        rw [e, insert_self _ _ _ hl]
+        exact ⟨trivial, hs, hi⟩
+      | some t =>
+        simp only [step, hl', hkk, cancelOpt]
+        have := sim_replace_nonquery (cs := cancel s.cancelled t) (ca := cancel a.cancelled t)
+          (ns := s.nextTok) (na := a.nextTok) (v := { p with kill := none }) hs hi hl hq hq h0 hqq
+          (by rw [hs.cancelled]) hs.nextTok
+        exact ⟨trivial, this.1, this.2⟩
+
+theorem sim_kill {s : St} {a a' : ASt} {c : Nat} {r : Res}
+    (hs : Sim s a) (hi : PInv a.procs) (h : astep a (.kill c) = some (a', r)) :
+    (step s (.kill c)).2 = r ∧ Sim (step s (.kill c)).1 a' ∧ PInv a'.procs := by
+  obtain ⟨hp, hc, hn, hcon, hrun, hby⟩ := hs
+  simp only [astep] at h
+  split at h
+  · rename_i hl
+    cases h
+    have hl' : lookup s.procs c = none := by rw [hp]; exact hl
+    simp only [step, hl']
+    exact ⟨trivial, ⟨hp, hc, hn, hcon, hrun, hby⟩, hi⟩
+  · rename_i p hl
+    cases h
+    have hl' : lookup s.procs c = some p := by rw [hp]; exact hl
+    simp only [step, hl']
+    exact ⟨trivial, ⟨hp, by simp [hc], hn, hcon, hrun, hby⟩, hi⟩
+
+/-- One event, any kind: inside the protocol and outside the regions the Impl model makes exactly
+the Spec's move and re-establishes the refinement relation. -/
+theorem sim_step {s : St} {a a' : ASt} {e : Ev} {r : Res}
+    (hs : Sim s a) (hi : PInv a.procs) (h : astep a e = some (a', r)) (hr : inRegion a e = false) :
+    (step s e).2 = r ∧ Sim (step s e).1 a' ∧ PInv a'.procs := by
+  simp only [inRegion, Bool.or_eq_false_iff] at hr
+  cases e with
+  | add c => exact sim_add hs hi h
+  | ready c => exact sim_ready hs hi h hr.2
+  | remove c => exact sim_remove hs hi h hr.1.2
+  | beginQ c pid => exact sim_beginQ hs hi h hr.1.1
+  | endQ c pid => exact sim_endQ hs hi h
+  | beginOp c => exact sim_beginOp hs hi h
+  | endOp c => exact sim_endOp hs hi h
+  | kill c => exact sim_kill hs hi h
+
+/-! ## Histories -/
+
+/-- The Spec's trace of a history; `none` as soon as one call leaves the protocol. -/
+def atrace : ASt → List Ev → Option (List (ASt × Res))
+  | _, [] => some []
+  | a, e :: es =>
+    match astep a e with
+    | none => none
+    | some (a', r) =>
+      match atrace a' es with
+      | none => none
+      | some t => some ((a', r) :: t)
+
+/-- No call of the history falls into a defect region (decided along the Spec's run). -/
+def noRegion : ASt → List Ev → Bool
+  | _, [] => true
+  | a, e :: es =>
+    match astep a e with
+    | none => true
+    | some (a', _) => !inRegion a e && noRegion a' es
+
+/-- Step-by-step agreement of an Impl trace with a Spec trace. -/
+def SimTrace : List (St × Res) → List (ASt × Res) → Prop
+  | [], [] => True
+  | (s, r) :: t, (a, r') :: t' => r = r' ∧ Sim s a ∧ PInv a.procs ∧ SimTrace t t'
+  | _, _ => False
+
+theorem refinement_from {s : St} {a : ASt} (es : List Ev) (tr : List (ASt × Res))
+    (hs : Sim s a) (hi : PInv a.procs) (ht : atrace a es = some tr) (hr : noRegion a es = true) :
+    SimTrace (run s es) tr := by
+  induction es generalizing s a tr with
+  | nil => simp only [atrace] at ht; cases ht; simp [run, SimTrace]
+  | cons e es ih =>
+    simp only [atrace] at ht
+    split at ht
+    · cases ht
+    · rename_i a' r hstep
+      split at ht
+      · cases ht
+      · rename_i t htr
+        cases ht
+        simp only [noRegion, hstep, Bool.and_eq_true, Bool.not_eq_true'] at hr
+        obtain ⟨h1, h2, h3⟩ := sim_step hs hi hstep hr.1
+        simp only [run, SimTrace]
+        exact ⟨h1, h2, h3, ih t h2 h3 htr hr.2⟩
+
+theorem sim_init : Sim St.init ASt.init :=
+  ⟨rfl, rfl, rfl, rfl, rfl, by
+    intro pid c
+    constructor
+    · intro h; simp [St.init, lookup] at h
+    · rintro ⟨p, h, _⟩; simp [ASt.init, lookup] at h⟩
+
+/-- The invariants the property states, on the Impl state alone. -/
+structure Good (s : St) : Prop where
+  connected : s.connected = (s.procs.length : Int)
+  running : s.running = (cnt isQuery s.procs : Int)
+  byPid : ∀ pid c, lookup s.byPid pid = some c ↔ Owner s.procs pid c
+  wf : PInv s.procs
+
+theorem good_of_sim {s : St} {a : ASt} (hs : Sim s a) (hi : PInv a.procs) : Good s := by
+  obtain ⟨hp, _, _, hcon, hrun, hby⟩ := hs
+  exact ⟨by rw [hp]; exact hcon, by rw [hp]; exact hrun, by rw [hp]; exact hby, by rw [hp]; exact hi⟩
+
+theorem good_of_simTrace {t : List (St × Res)} {t' : List (ASt × Res)} (h : SimTrace t t') :
+    ∀ x ∈ t, Good x.1 := by
+  induction t generalizing t' with
+  | nil => intro x hx; cases hx
+  | cons y t ih =>
+    cases t' with
+    | nil => obtain ⟨s, r⟩ := y; simp [SimTrace] at h
+    | cons y' t' =>
+      obtain ⟨s, r⟩ := y
+      obtain ⟨a, r'⟩ := y'
+      simp only [SimTrace] at h
+      intro x hx
+      simp only [List.mem_cons] at hx
+      rcases hx with hx | hx
+      · subst hx; exact good_of_sim h.2.1 h.2.2.1
+      · exact ih h.2.2.2 x hx
+
+/-! ## Cancellation: targeted and never late — for every state and every call -/
+
+theorem held_insert (m : List (Nat × Proc)) (k : Nat) (v : Proc) (c : Nat) :
+    held (insert m k v) c = if k = c then v.kill else held m c := by
+  unfold held
+  rw [lookup_insert]
+  by_cases h : k = c <;> simp [h]
+
+theorem held_erase (m : List (Nat × Proc)) (k : Nat) (c : Nat) :
+    held (erase m k) c = if k = c then none else held m c := by
+  unfold held
+  rw [lookup_erase]
+  by_cases h : k = c <;> simp [h]
+
+theorem mem_cancel {l : List Nat} {t u : Nat} (h : u ∈ cancel l t) : u ∈ l ∨ u = t := by
+  unfold cancel at h
+  split at h
+  · exact Or.inl h
+  · simp only [List.mem_cons] at h
+    rcases h with h | h
+    · exact Or.inr h
+    · exact Or.inl h
+
+theorem mem_cancelOpt {l : List Nat} {o : Option Nat} {u : Nat} (h : u ∈ cancelOpt l o) : u ∈ l ∨ o = some u := by
+  cases o with
+  | none => exact Or.inl h
+  | some t =>
+    rcases mem_cancel h with h | h
+    · exact Or.inl h
+    · exact Or.inr (by rw [h])
+
+theorem mem_cancel_of_mem {l : List Nat} {t u : Nat} (h : u ∈ l) : u ∈ cancel l t := by
+  unfold cancel; split
+  · exact h
+  · exact List.mem_cons_of_mem _ h
+
+theorem mem_cancel_self (l : List Nat) (t : Nat) : t ∈ cancel l t := by
+  unfold cancel; split
+  · assumption
+  · exact List.mem_cons_self
+
+/-- The shape of one call, whatever the state (no protocol assumed): only the called connection's
+registration changes, it becomes nil, stays, or becomes the fresh token; only the cancel func that
+was registered for *that* connection can have been called. -/
+structure StepShape (s : St) (e : Ev) (s' : St) : Prop where
+  others : ∀ c', c' ≠ e.conn → held s'.procs c' = held s.procs c'
+  own : held s'.procs e.conn = none ∨ held s'.procs e.conn = held s.procs e.conn ∨
+        (held s'.procs e.conn = some s.nextTok ∧ s'.nextTok = s.nextTok + 1)
+  tok : s'.nextTok = s.nextTok ∨ s'.nextTok = s.nextTok + 1
+  cancelled : ∀ t ∈ s'.cancelled, t ∈ s.cancelled ∨ held s.procs e.conn = some t
+  mono : ∀ t ∈ s.cancelled, t ∈ s'.cancelled
+
+
+theorem held_of_lookup {m : List (Nat × Proc)} {c : Nat} {p : Proc} (h : lookup m c = some p) :
+    held m c = p.kill := by simp [held, h]
+
+theorem held_of_lookup_none {m : List (Nat × Proc)} {c : Nat} (h : lookup m c = none) :
+    held m c = none := by simp [held, h]
+
+theorem shape_refl (s : St) (e : Ev) : StepShape s e s :=
+  ⟨fun _ _ => rfl, Or.inr (Or.inl rfl), Or.inl rfl, fun _ h => Or.inl h, fun _ h => h⟩
+
+/-- Generic constructor: the call rewrote `procs[c]` (or deleted it), possibly called the
+registered cancel func, possibly drew the next token. -/
+theorem shape_of {s s' : St} {e : Ev}
+    (hothers : ∀ c', c' ≠ e.conn → held s'.procs c' = held s.procs c')
+    (hown : held s'.procs e.conn = none ∨ held s'.procs e.conn = held s.procs e.conn ∨
+        (held s'.procs e.conn = some s.nextTok ∧ s'.nextTok = s.nextTok + 1))
+    (htok : s'.nextTok = s.nextTok ∨ s'.nextTok = s.nextTok + 1)
+    (hc : s'.cancelled = s.cancelled ∨ s'.cancelled = cancelOpt s.cancelled (held s.procs e.conn)) :
+    StepShape s e s' := by
+  refine ⟨hothers, hown, htok, ?_, ?_⟩
+  · intro t ht
+    rcases hc with hc | hc
+    · rw [hc] at ht; exact Or.inl ht
+    · rw [hc] at ht; exact mem_cancelOpt ht
+  · intro t ht
+    rcases hc with hc | hc
+    · rw [hc]; exact ht
+    · rw [hc]
+      cases held s.procs e.conn with
+      | none => exact ht
+      | some u => exact mem_cancel_of_mem ht
+
+theorem step_shape (s : St) (e : Ev) : StepShape s e (step s e).1 := by
+  cases e with
+  | add c =>
+    apply shape_of
+    · intro c' hc'
+      have : ¬ c = c' := fun e => hc' e.symm
+      simp [step, held_insert, this]
+    · left; simp [step, held_insert, Ev.conn]
+    · left; simp [step]
+    · left; simp [step]
+  | ready c =>
+    apply shape_of
+    · intro c' hc'
+      have : ¬ c = c' := fun e => hc' e.symm
+      simp [step, held_insert, this]
+    · left; simp [step, held_insert, Ev.conn]
+    · left; simp [step]
+    · left; simp [step]
+  | remove c =>
+    cases hl : lookup s.procs c with
+    | none => simp only [step, hl]; exact shape_refl _ _
+    | some p =>
+      simp only [step, hl]
+      apply shape_of
+      · intro c' hc'
+        have : ¬ c = c' := fun e => hc' e.symm
+        simp [held_erase, this]
+      · left; simp [held_erase, Ev.conn]
+      · left; rfl
+      · right; simp [Ev.conn, held_of_lookup hl]
+  | beginQ c pid =>
+    cases hl : lookup s.procs c with
+    | none => simp only [step, hl]; exact shape_of (fun _ _ => rfl) (Or.inr (Or.inl rfl)) (Or.inl rfl) (Or.inl rfl)
+    | some p =>
+      cases hb : lookup s.byPid pid with
+      | some x => simp only [step, hl, hb]; exact shape_of (fun _ _ => rfl) (Or.inr (Or.inl rfl)) (Or.inl rfl) (Or.inl rfl)
+      | none =>
+        simp only [step, hl, hb]
+        apply shape_of
+        · intro c' hc'
+          have : ¬ c = c' := fun e => hc' e.symm
+          simp [held_insert, this]
+        · right; right; simp [held_insert, Ev.conn]
+        · right; rfl
+        · left; rfl
+  | endQ c pid =>
+    cases hl : lookup s.procs c with
+    | none => simp only [step, hl]; exact shape_of (fun _ _ => rfl) (Or.inr (Or.inl rfl)) (Or.inl rfl) (Or.inl rfl)
+    | some p =>
+      by_cases hp : p.pid = pid
+      · cases hk : p.kill with
+        | none =>
+          simp only [step, hl, hp, if_true, hk]
+          apply shape_of
+          · intro c' hc'
+            have : ¬ c = c' := fun e => hc' e.symm
+            simp [held_insert, this]
+          · left; simp [held_insert, Ev.conn]
+          · left; rfl
+          · left; rfl
+        | some t =>
+          simp only [step, hl, hp, if_true, hk]
+          apply shape_of
+          · intro c' hc'
+            have : ¬ c = c' := fun e => hc' e.symm
+            simp [held_insert, this]
+          · left; simp [held_insert, Ev.conn]
+          · left; rfl
+          · right; simp [Ev.conn, held_of_lookup hl, hk, cancelOpt]
+      · simp only [step, hl, hp, if_false]
+        exact shape_of (fun _ _ => rfl) (Or.inr (Or.inl rfl)) (Or.inl rfl) (Or.inl rfl)
+  | beginOp c =>
+    cases hl : lookup s.procs c with
+    | none => simp only [step, hl]; exact shape_refl _ _
+    | some p =>
+      cases hk : p.kill with
+      | some t => simp only [step, hl, hk]; exact shape_refl _ _
+      | none =>
+        simp only [step, hl, hk]
+        apply shape_of
+        · intro c' hc'
+          have : ¬ c = c' := fun e => hc' e.symm
+          simp [held_insert, this]
+        · right; right; simp [held_insert, Ev.conn]
+        · right; rfl
+        · left; rfl
+  | endOp c =>
+    cases hl : lookup s.procs c with
+    | none => simp only [step, hl]; exact shape_refl _ _
+    | some p =>
+      cases hk : p.kill with
+      | none => simp only [step, hl, hk]; exact shape_refl _ _
+      | some t =>
+        simp only [step, hl, hk]
+        apply shape_of
+        · intro c' hc'
+          have : ¬ c = c' := fun e => hc' e.symm
+          simp [held_insert, this]
+        · left; simp [held_insert, Ev.conn]
+        · left; rfl
+        · right; simp [Ev.conn, held_of_lookup hl, hk, cancelOpt]
+  | kill c =>
+    cases hl : lookup s.procs c with
+    | none => simp only [step, hl]; exact shape_refl _ _
+    | some p =>
+      simp only [step, hl]
+      apply shape_of
+      · intro c' _; rfl
+      · right; left; rfl
+      · left; rfl
+      · right; simp [Ev.conn, held_of_lookup hl]
+
+/-- Token discipline: every token ever handed out or cancelled is below the supply, and no two
+connections hold the same cancel func. -/
+structure TokInv (s : St) : Prop where
+  cancLt : ∀ t ∈ s.cancelled, t < s.nextTok
+  heldLt : ∀ c t, held s.procs c = some t → t < s.nextTok
+  heldInj : ∀ c c' t, held s.procs c = some t → held s.procs c' = some t → c = c'
+
+theorem tokInv_init : TokInv St.init :=
+  ⟨by intro t h; simp [St.init] at h, by intro c t h; simp [St.init, held, lookup] at h,
+   by intro c c' t h; simp [St.init, held, lookup] at h⟩
+
+theorem tokInv_of_shape {s s' : St} {e : Ev} (hi : TokInv s) (hs : StepShape s e s') : TokInv s' := by
+  have hle : s.nextTok ≤ s'.nextTok := by rcases hs.tok with h | h <;> omega
+  have hheld : ∀ c t, held s'.procs c = some t → t < s'.nextTok := by
+    intro c t h
+    by_cases hc : c = e.conn
+    · subst hc
+      rcases hs.own with h1 | h1 | ⟨h1, h2⟩
+      · rw [h1] at h; cases h
+      · rw [h1] at h; exact Nat.lt_of_lt_of_le (hi.heldLt _ t h) hle
+      · rw [h1] at h; cases h; omega
+    · rw [hs.others c hc] at h; exact Nat.lt_of_lt_of_le (hi.heldLt c t h) hle
+  refine ⟨?_, hheld, ?_⟩
+  · intro t ht
+    rcases hs.cancelled t ht with h | h
+    · exact Nat.lt_of_lt_of_le (hi.cancLt t h) hle
+    · exact Nat.lt_of_lt_of_le (hi.heldLt _ t h) hle
+  · intro c c' t h h'
+    by_cases hc : c = e.conn <;> by_cases hc' : c' = e.conn
+    · rw [hc, hc']
+    · rw [hs.others c' hc'] at h'
+      subst hc
+      rcases hs.own with h1 | h1 | ⟨h1, _⟩
+      · rw [h1] at h; cases h
+      · rw [h1] at h; exact hi.heldInj _ _ t h h'
+      · rw [h1] at h; cases h
+        exact absurd (hi.heldLt c' _ h') (Nat.lt_irrefl _)
+    · rw [hs.others c hc] at h
+      subst hc'
+      rcases hs.own with h1 | h1 | ⟨h1, _⟩
+      · rw [h1] at h'; cases h'
+      · rw [h1] at h'; exact hi.heldInj _ _ t h h'
+      · rw [h1] at h'; cases h'
+        exact absurd (hi.heldLt c _ h) (Nat.lt_irrefl _)
+    · rw [hs.others c hc] at h
+      rw [hs.others c' hc'] at h'
+      exact hi.heldInj c c' t h h'
+
+theorem tokInv_exec (s : St) (es : List Ev) (hi : TokInv s) : TokInv (exec s es) := by
+  induction es generalizing s with
+  | nil => exact hi
+  | cons e es ih => exact ih _ (tokInv_of_shape hi (step_shape s e))
+
+/-- The Spec's final state of a history. -/
+def aexec (a : ASt) (es : List Ev) : Option ASt :=
+  match atrace a es with
+  | none => none
+  | some t => some ((t.getLast?.map (·.1)).getD a)
+
 end Gms.ProcList
+
+/-! # C37 — the property theorems -/
+
+namespace Gms.C37
+open Gms.ProcList
+
+/-- **Refinement (guarded: `refinement_partial`).** For *every* history of calls that stays inside
+the protocol of `sql.ProcessList` (the Spec machine `astep` answers every call) and avoids the three
+listed defect regions, the Impl model of `ProcessList` returns the Spec's result at every call and
+after every call its state is the Spec state plus exact redundant data: same session table
+(`Processes()` shows exactly the connected sessions, each with the query it is running), same set
+of cancelled contexts, `Threads_connected`/`Threads_running` equal to the derived counts, and
+`byQueryPid` exactly the ground-truth owner relation.
+
+The unguarded statement (without `noRegion`) is false for the code that exists — see
+`finding_begin_query_error_path`, `finding_remove_during_query`, `finding_ready_during_operation`:
+
+    theorem refinement (es tr) (ht : atrace ASt.init es = some tr) : SimTrace (run St.init es) tr -/
+theorem refinement_partial (es : List Ev) (tr : List (ASt × Res))
+    (ht : atrace ASt.init es = some tr) (hr : noRegion ASt.init es = true) :
+    SimTrace (run St.init es) tr :=
+  refinement_from es tr sim_init PInv_nil ht hr
+
+/-- `Threads_connected` = number of sessions in the list, `Threads_running` = number of sessions
+whose command is `Query`, `byQueryPid` = the owner relation, after every call of every covered
+history. -/
+theorem invariants_hold (es : List Ev) (tr : List (ASt × Res))
+    (ht : atrace ASt.init es = some tr) (hr : noRegion ASt.init es = true) :
+    ∀ x ∈ run St.init es, Good x.1 :=
+  good_of_simTrace (refinement_partial es tr ht hr)
+
+theorem inv_connected (es : List Ev) (tr : List (ASt × Res))
+    (ht : atrace ASt.init es = some tr) (hr : noRegion ASt.init es = true) :
+    ∀ x ∈ run St.init es, x.1.connected = (x.1.procs.length : Int) :=
+  fun x hx => (invariants_hold es tr ht hr x hx).connected
+
+theorem inv_running (es : List Ev) (tr : List (ASt × Res))
+    (ht : atrace ASt.init es = some tr) (hr : noRegion ASt.init es = true) :
+    ∀ x ∈ run St.init es, x.1.running = (cnt isQuery x.1.procs : Int) :=
+  fun x hx => (invariants_hold es tr ht hr x hx).running
+
+theorem inv_byPid (es : List Ev) (tr : List (ASt × Res))
+    (ht : atrace ASt.init es = some tr) (hr : noRegion ASt.init es = true) :
+    ∀ x ∈ run St.init es, ∀ pid c, lookup x.1.byPid pid = some c ↔ Owner x.1.procs pid c :=
+  fun x hx => (invariants_hold es tr ht hr x hx).byPid
+
+/-- Non-vacuity: a two-connection history with a double `EndQuery`, a `KILL` of a running query, a
+`KILL` of an unknown id, an operation, an error return of `BeginOperation` and a disconnect is
+covered (inside the protocol, outside the regions). -/
+def sampleHistory : List Ev :=
+  [.add 1, .ready 1, .add 2, .ready 2, .beginQ 1 1, .kill 1, .beginOp 1, .endQ 1 1, .endQ 1 1,
+   .beginOp 2, .kill 7, .endOp 2, .beginQ 2 2, .beginQ 1 3, .kill 2, .endQ 2 2, .remove 2, .endQ 1 3, .remove 1]
+
+example : (atrace ASt.init sampleHistory).isSome = true ∧ noRegion ASt.init sampleHistory = true := by decide
+example : (exec St.init sampleHistory).cancelled = [3, 2, 1, 0] ∧ (exec St.init sampleHistory).running = 0 := by decide
+
+/-- **KILL (and every other call) cancels only the targeted work — all states, all calls, no
+protocol assumption.** A context that is cancelled after a call was cancelled before it, or its
+cancel func was the one registered for the connection the call names. -/
+theorem kill_targets_only (s : St) (e : Ev) (t : Nat) (h : t ∈ (step s e).1.cancelled) :
+    t ∈ s.cancelled ∨ held s.procs e.conn = some t :=
+  (step_shape s e).cancelled t h
+
+/-- `Kill c` itself: exactly the registered cancel func of `c` is called, nothing else changes. -/
+theorem kill_exact (s : St) (c : Nat) :
+    (step s (.kill c)).1 = { s with cancelled := cancelOpt s.cancelled (held s.procs c) } := by
+  cases hl : lookup s.procs c with
+  | none => simp [step, hl, held, cancelOpt]
+  | some p => simp [step, hl, held]
+
+example : (step (exec St.init [.add 1, .ready 1, .add 2, .ready 2, .beginQ 1 5, .beginQ 2 6]) (.kill 2)).1.cancelled = [1] := by
+  decide
+
+/-- A call on one connection never changes what is registered for another connection. -/
+theorem other_connections_untouched (s : St) (e : Ev) (c : Nat) (h : c ≠ e.conn) :
+    held (step s e).1.procs c = held s.procs c :=
+  (step_shape s e).others c h
+
+/-- Token discipline holds after *every* history whatsoever (also outside the protocol). -/
+theorem tokens_disciplined (es : List Ev) : TokInv (exec St.init es) :=
+  tokInv_exec St.init es tokInv_init
+
+/-- **A cancellation never affects a later query on the same connection — all histories.** The
+context handed out by a successful `BeginQuery`/`BeginOperation` after any history is not cancelled
+at that moment and is not the context of any other connection; by `kill_targets_only` it can from
+then on only be cancelled by a call that names its own connection while it is still registered. -/
+theorem no_late_cancel (es : List Ev) (e : Ev) (tok : Nat)
+    (h : (step (exec St.init es) e).2 = .ok tok) :
+    tok ∉ (step (exec St.init es) e).1.cancelled ∧
+    held (step (exec St.init es) e).1.procs e.conn = some tok ∧
+    ∀ c, c ≠ e.conn → held (step (exec St.init es) e).1.procs c ≠ some tok := by
+  have hi := tokens_disciplined es
+  have hi' := tokInv_of_shape hi (step_shape (exec St.init es) e)
+  generalize exec St.init es = s at *
+  have hs := step_shape s e
+  -- a successful Begin returns the supply value and registers it
+  have key : tok = s.nextTok ∧ held (step s e).1.procs e.conn = some tok := by
+    cases e with
+    | beginQ c pid =>
+      cases hl : lookup s.procs c with
+      | none => simp [step, hl] at h
+      | some p =>
+        cases hb : lookup s.byPid pid with
+        | some x => simp [step, hl, hb] at h
+        | none =>
+          simp only [step, hl, hb] at h ⊢
+          cases h
+          exact ⟨rfl, by simp [held_insert, Ev.conn]⟩
+    | beginOp c =>
+      cases hl : lookup s.procs c with
+      | none => simp [step, hl] at h
+      | some p =>
+        cases hk : p.kill with
+        | some x => simp [step, hl, hk] at h
+        | none =>
+          simp only [step, hl, hk] at h ⊢
+          cases h
+          exact ⟨rfl, by simp [held_insert, Ev.conn]⟩
+    | add c => simp [step] at h
+    | ready c => simp [step] at h
+    | remove c => cases hl : lookup s.procs c <;> simp [step, hl] at h
+    | endQ c pid =>
+      cases hl : lookup s.procs c with
+      | none => simp [step, hl] at h
+      | some p =>
+        by_cases hp : p.pid = pid
+        · cases hk : p.kill <;> simp [step, hl, hp, hk] at h
+        · simp [step, hl, hp] at h
+    | endOp c =>
+      cases hl : lookup s.procs c with
+      | none => simp [step, hl] at h
+      | some p => cases hk : p.kill <;> simp [step, hl, hk] at h
+    | kill c => cases hl : lookup s.procs c <;> simp [step, hl] at h
+  obtain ⟨htok, hheld⟩ := key
+  refine ⟨?_, hheld, ?_⟩
+  · intro hmem
+    rcases hs.cancelled tok hmem with h1 | h1
+    · exact absurd (hi.cancLt tok h1) (by rw [htok]; exact Nat.lt_irrefl _)
+    · exact absurd (hi.heldLt _ tok h1) (by rw [htok]; exact Nat.lt_irrefl _)
+  · intro c hc hh
+    exact hc (hi'.heldInj c e.conn tok hh hheld)
+
+example : (step (exec St.init [.add 1, .ready 1, .beginQ 1 1, .kill 1, .endQ 1 1]) (.beginQ 1 2)).2 = .ok 1 := by decide
+
+/-! ## Findings on the unchanged tree -/
+
+/-- F-C37-a. `BeginQuery` on an unregistered connection returns its error *after* counting the
+query: `Threads_running` = 1 with no session at all. -/
+theorem finding_begin_query_error_path :
+    ∃ es, (atrace ASt.init es).isSome = true ∧
+      (exec St.init es).running ≠ (cnt isQuery (exec St.init es).procs : Int) :=
+  ⟨[.beginQ 1 1], by decide⟩
+
+/-- F-C37-a, second error return: the query id is already in use. -/
+theorem finding_begin_query_error_path_dup_pid :
+    ∃ es, (atrace ASt.init es).isSome = true ∧
+      (exec St.init es).running ≠ (cnt isQuery (exec St.init es).procs : Int) :=
+  ⟨[.add 1, .ready 1, .add 2, .ready 2, .beginQ 1 1, .beginQ 2 1], by decide⟩
+
+/-- F-C37-b. `RemoveConnection` while the connection's query is registered never gives the
+`Threads_running` increment back (the later `EndQuery` finds no process). -/
+theorem finding_remove_during_query :
+    ∃ es, (atrace ASt.init es).isSome = true ∧
+      (exec St.init es).running ≠ (cnt isQuery (exec St.init es).procs : Int) :=
+  ⟨[.add 1, .ready 1, .beginQ 1 1, .remove 1, .endQ 1 1], by decide⟩
+
+/-- `ConnectionReady` inside a registered operation (the order of calls in
+`SessionManager.SetDB`) replaces the `Process` struct and with it the operation's cancel func:
+a `KILL` that the Spec delivers to the operation is lost, and `EndOperation` no longer cancels the
+sub-context. -/
+theorem finding_ready_during_operation :
+    ∃ es a, aexec ASt.init es = some a ∧ (exec St.init es).cancelled ≠ a.cancelled :=
+  ⟨[.add 1, .beginOp 1, .ready 1, .kill 1, .endOp 1], _, rfl, by decide⟩
+
+/-- Every witness above lies in its region (so the guard of `refinement_partial` is exactly what
+excludes it). -/
+theorem findings_in_regions :
+    noRegion ASt.init [.beginQ 1 1] = false ∧
+    noRegion ASt.init [.add 1, .ready 1, .add 2, .ready 2, .beginQ 1 1, .beginQ 2 1] = false ∧
+    noRegion ASt.init [.add 1, .ready 1, .beginQ 1 1, .remove 1, .endQ 1 1] = false ∧
+    noRegion ASt.init [.add 1, .beginOp 1, .ready 1, .kill 1, .endOp 1] = false := by decide
+
+/-! ## Regenerated facts -/
+
+/-- The code read back from /repo's working tree still has the shape the model transliterates:
+the four counter updates sit in the four methods with these deltas, the `Threads_running` increment
+of `BeginQuery` still precedes its first error return, `RemoveConnection` does not touch
+`Threads_running`, every event method holds `pl.mu` (atomic steps), `EndQuery`/`EndOperation`/`Kill`
+guard (or not) the `Kill` func exactly as modelled, and the command names are the three MySQL
+ones. -/
+theorem facts_match :
+    Generated.C37.counterEffects = counterEffects ∧
+    Generated.C37.beginQueryIncrementBeforeErrorReturns = true ∧
+    Generated.C37.beginQueryErrorReturns = 2 ∧
+    Generated.C37.methodsUnderMutex =
+      ["AddConnection", "BeginOperation", "BeginQuery", "ConnectionReady", "EndOperation", "EndQuery", "Kill",
+       "Processes", "RemoveConnection"] ∧
+    Generated.C37.killNilGuards = [("EndOperation", true), ("EndQuery", false), ("Kill", true), ("RemoveConnection", true)] ∧
+    Generated.C37.commandNames = [("ProcessCommandConnect", "Connect"), ("ProcessCommandQuery", "Query"), ("ProcessCommandSleep", "Sleep")] := by
+  decide
+
+end Gms.C37
